@@ -22,6 +22,17 @@ func ResetStats() {
 	Stats = struct{ MutexLock, CondWait, CondSignal, CondBroadcast, MapOps, OnceDo int64 }{}
 }
 
+func noteBlocked(t *simrt.Task) {
+	if t.Local == nil {
+		t.Local = map[string]any{}
+	}
+	n, _ := t.Local["mutexBlocked"].(int)
+	t.Local["mutexBlocked"] = n + 1
+}
+
+// Ops counts every synchronisation operation that went through this package in a simulation.
+var Ops int64
+
 type Mutex struct {
 	real sync.Mutex
 	held bool
@@ -37,6 +48,7 @@ func (m *Mutex) Lock() {
 	}
 	_ = s
 	Stats.MutexLock++
+	Ops++
 	blocked := false
 	simrt.Block("Mutex.Lock", func() bool {
 		if m.held {
@@ -156,7 +168,17 @@ func (m *RWMutex) Lock() {
 		m.real.Lock()
 		return
 	}
-	simrt.Block("RWMutex.Lock", func() bool { return !m.writer && m.readers == 0 })
+	Ops++
+	blocked := false
+	simrt.Block("RWMutex.Lock", func() bool {
+		if m.writer || m.readers != 0 {
+			blocked = true
+		}
+		return !m.writer && m.readers == 0
+	})
+	if blocked {
+		noteBlocked(t)
+	}
 	m.writer = true
 }
 
@@ -176,7 +198,17 @@ func (m *RWMutex) RLock() {
 		m.real.RLock()
 		return
 	}
-	simrt.Block("RWMutex.RLock", func() bool { return !m.writer })
+	Ops++
+	blocked := false
+	simrt.Block("RWMutex.RLock", func() bool {
+		if m.writer {
+			blocked = true
+		}
+		return !m.writer
+	})
+	if blocked {
+		noteBlocked(t)
+	}
 	m.readers++
 }
 
@@ -193,7 +225,7 @@ func (m *RWMutex) RUnlock() {
 // Map yields before every operation; the data lives in a real sync.Map.
 type Map struct{ m sync.Map }
 
-func (m *Map) y(op string) { Stats.MapOps++; simrt.Yield("Map." + op) }
+func (m *Map) y(op string) { Stats.MapOps++; Ops++; simrt.Yield("Map." + op) }
 
 func (m *Map) Load(key any) (any, bool) { m.y("Load"); return m.m.Load(key) }
 func (m *Map) Store(key, value any)     { m.y("Store"); m.m.Store(key, value) }
